@@ -29,6 +29,7 @@ class UnionCaps:
         self.has_end = all(f["EOF_SUPPORT"] for f in fl)
         self.has_free = any(f["DYNAMIC_MEMORY"] for f in fl)
         self.zero_len = any(f["ZERO_LEN_INPUT_SUPPORT"] for f in fl)
+        self.poison_restart = False     # replicas restart on a zeroed struct (sources may read strings by index)
 
 
 def _filter_script(lines, flags):
@@ -397,6 +398,29 @@ def tasks_c12(root, tier, tree):
             p = workload.generated_unit(root, idx, bias={"strings": True, "oos": i % 2 == 0, "noindex": True}, stream="program-c12")
         unit = {"label": "gen:program-c12:%d" % idx, "source": p["source"], "base_argv": [], "need": p["need"],
                 "seeds": p["samples"], "canaries": p["canaries"], "_fn": c12_unit}
+        tasks.append(("call", root, idx, unit, T))
+    # family programs (capacity-stress inputs come with them): out-of-space handlers around appends that share a
+    # transition with hooks / yields / per-byte foreach actions are where pointer mode and storage mode meet
+    from . import families
+    for j in range(T["gen"] // 3):
+        idx = 200000 + j
+        fam = ("F7", "F8", "F1", "F5", "F6", "F8")[j % 6]
+        rng = sched.rng_for(root, "c12-family-" + fam, idx)
+        if fam in ("F7", "F1"):
+            spec = families.gen_f1(rng, {"foreach": fam == "F7", "try": rng.choice(("oos-wait", "oos-wait", "oos-finish", "none"))})
+            xs = families.f1_inputs(rng, spec, 10)
+        elif fam == "F5":
+            spec = families.gen_f5(rng)
+            xs = families.f5_inputs(rng, spec, 8)
+        elif fam == "F8":
+            spec = families.gen_f8(rng)
+            xs = families.f8_inputs(rng, spec, 10)
+        else:
+            spec = families.gen_f6(rng)
+            xs = families.f6_inputs(rng, spec, 6)
+        unit = {"label": "gen:c12-family-%s:%d" % (fam, idx), "source": spec["source"], "base_argv": [], "need": spec["need"],
+                "seeds": [x.hex() for x in xs], "canaries": {o["name"]: 90 for o in spec.get("outputs", []) if o.get("canary")},
+                "_fn": c12_unit}
         tasks.append(("call", root, idx, unit, T))
     return tasks
 
